@@ -365,6 +365,26 @@ func cmsMergeCase(c *Ctx, rows, cols uint, redis bool) {
 		// the Redis Equals reports unequal as (false, err); equal sketches must be (true, nil)
 		c.fail([]string{"C12", "C17"}, "cms-merged-not-equal", fmt.Sprintf("%s: merged sketch not Equal to the single sketch (%v, %v)", cfg, ok, err), replay)
 	}
+	// merge chain: an intermediate sketch that only ever received merges is merged onwards
+	E, _ := newCMS(rows, cols, redis)
+	T, _ := newCMS(rows, cols, redis)
+	S, _ := newCMS(rows, cols, redis) // single sketch receiving a ++ (b again through the chain)
+	if E != nil && T != nil && S != nil {
+		cmsFeed(T, pool, hb)
+		cmsFeed(S, pool, hb)
+		cmsFeed(S, pool, ha)
+		if E.Merge(A2) == nil && T.Merge(E) == nil {
+			for jj, e := range pool {
+				v1, _ := T.Count(e)
+				v2, _ := S.Count(e)
+				if v1 != v2 {
+					c.fail([]string{"C12", "C08"}, "cms-merge-chain", fmt.Sprintf("%s: merging through an intermediate sketch loses counts: element %d counts %d, single sketch %d", cfg, jj, v1, v2), replay)
+					return
+				}
+			}
+			c.branch("merge-chain")
+		}
+	}
 	if len(ha) > 0 && len(hb) > 0 {
 		c.nontrivial(cfg + fmt.Sprint(ha, hb, hc))
 	}
